@@ -26,9 +26,7 @@ func init() {
 func totalityRoots(e *Env, rule string) []*ssa.Function {
 	var roots []*ssa.Function
 	for _, pkg := range ValuePkgs {
-		for _, n := range parserEntries[pkg] {
-			roots = append(roots, e.Fn(rule, pkg, n))
-		}
+		roots = append(roots, parserEntryFuncs(e, rule, pkg)...)
 	}
 	for _, n := range []string{"Compare", "CompareTag", "CompareVersion", "Latest", "LatestTag", "LatestVersion", "DefaultComparePreRelease"} {
 		roots = append(roots, e.Fn(rule, "sem", n))
